@@ -81,7 +81,7 @@ std::vector<uint8_t> wav_seed(unsigned which, std::vector<size_t>* fields = null
 	return b;
 }
 
-const uint32_t boundary32[] = {0, 1, 2, 13, 14, 15, 0x7FFFFFFF, 0x80000000u, 0xFFFFFFF8u, 0xFFFFFFFFu, 0x80000001u, 0x7FFFFFF8u, 0xFFFFFFF0u, 16, 28, 60};
+const uint32_t boundary32[] = {0, 1, 2, 13, 14, 15, 0x7FFFFFFF, 0x80000000u, 0xFFFFFFF8u, 0xFFFFFFFFu, 0x80000001u, 0x7FFFFFF8u, 0xFFFFFFF0u, 16, 28, 60, 0x100, 0x101, 0x102, 0x103, 0x104, 0xFFFF};   // 0x100..0x104: compression kinds (relabelled members)
 
 std::string outcome_hash(const std::vector<uint8_t>& v) { return "ok:" + std::to_string(v.size()) + ":" + std::to_string(fnv1a(v.data(), v.size())); }
 
@@ -97,7 +97,7 @@ struct Call { uint8_t op; uint64_t idx; std::string name; };
 std::string perform(ArchiveFile& a, VolFile* vol, const Call& c, const std::string& tag, std::vector<uint8_t>* streamBytes = nullptr, std::vector<uint8_t>* extracted = nullptr) {
 	std::string r;
 	try {
-		switch (c.op % 8) {
+		switch (c.op % 10) {
 		case 0: r = "ok:" + std::to_string(a.GetCount()); break;
 		case 1: r = "ok:" + a.GetName(size_t(c.idx)); break;
 		case 2: r = "ok:" + std::to_string(a.GetSize(size_t(c.idx))); break;
@@ -116,6 +116,8 @@ std::string perform(ArchiveFile& a, VolFile* vol, const Call& c, const std::stri
 				s->SeekBeginning();
 			}
 			std::vector<uint8_t> b(len); s->Read(b.data(), b.size()); r = outcome_hash(b); if (streamBytes) *streamBytes = b; break; }
+		case 8: { a.ExtractFile(size_t(c.idx), scratch_dir()); r = "ok:wrote-to-a-directory?"; break; }                      // destination is a directory: an ordinary error
+		case 9: { std::string nm = c.name.empty() ? a.GetName(size_t(c.idx)) : c.name; std::string p = scratch_path("c05_n_" + tag + ".bin"); a.ExtractFile(nm, p); std::vector<uint8_t> b; read_file(p, b); r = outcome_hash(b); break; }   // by name
 		default: { std::string p = scratch_path("c05_x_" + tag + ".bin"); a.ExtractFile(size_t(c.idx), p); std::vector<uint8_t> b; read_file(p, b); r = outcome_hash(b); if (extracted) *extracted = b; break; }
 		}
 	} catch (const Violation&) { throw; }
@@ -147,7 +149,7 @@ void archive_case(Kind kind, const std::vector<uint8_t>& bytes, const std::vecto
 	unsigned n = 0;
 	for (const Call& c0 : calls) {
 		Call c = c0;
-		if ((c.op % 8) == 4 || (c.op % 8) == 5) { if (c.name.empty() && count) { try { c.name = ar->GetName(size_t(c.idx % count)); } catch (const std::exception&) {} } }
+		if ((c.op % 10) == 4 || (c.op % 10) == 5) { if (c.name.empty() && count) { try { c.name = ar->GetName(size_t(c.idx % count)); } catch (const std::exception&) {} } }
 		std::vector<uint8_t> sb, xb;
 		std::string tag = "L";
 		std::string got = perform(*ar, vol, c, tag, &sb, &xb);
@@ -156,11 +158,12 @@ void archive_case(Kind kind, const std::vector<uint8_t>& bytes, const std::vecto
 		Out o2 = guarded([&] { fresh = open_archive(kind, path, &v2); });
 		V_CHECK(o2 == Out::Ok, "file that opened once fails to open again (call " << n << ")");
 		std::string want = perform(*fresh, v2, c, "F");
-		V_CHECK(got == want, "call #" << n << " op " << int(c.op % 8) << " idx " << c.idx << " on the long-lived archive object gave '" << got.substr(0, 60) << "' but a fresh object gives '" << want.substr(0, 60) << "' (an earlier failed call changed the object)");
+		V_CHECK(got == want, "call #" << n << " op " << int(c.op % 10) << " idx " << c.idx << " on the long-lived archive object gave '" << got.substr(0, 60) << "' but a fresh object gives '" << want.substr(0, 60) << "' (an earlier failed call changed the object)");
 		if (got == "err") anyErr = true; else { if (got != "n/a") { anyOk = true; if (anyErr) okAfterErr = true; } }
 		// index bounds
-		unsigned op = c.op % 8;
-		if ((op == 1 || op == 2 || op == 3 || op == 6 || op == 7) && c.idx >= count && got != "n/a") V_CHECK(got == "err", "per-member call op " << op << " accepted index " << c.idx << " >= count " << count);
+		unsigned op = c.op % 10;
+		if (op == 8) V_CHECK(got == "err", "ExtractFile onto a path that is a directory did not fail");
+		if ((op == 1 || op == 2 || op == 3 || op == 6 || op == 7 || op == 8) && c.idx >= count && got != "n/a") V_CHECK(got == "err", "per-member call op " << op << " accepted index " << c.idx << " >= count " << count);
 		// extent exactness
 		if (parseAgrees && c.idx < count && got != "err") {
 			if (kind == KVol && op == 7 && L.entries[c.idx].comp != refvol::CompUncompressed) {
@@ -199,14 +202,14 @@ void archive_case(Kind kind, const std::vector<uint8_t>& bytes, const std::vecto
 		if (safe) { std::string d = scratch_path("c05_all"); mkdir(d.c_str(), 0700); guarded([&] { ar->ExtractAllFiles(d); }); st.cls("extract_all_run"); for (auto& nm : names) remove((d + "/" + nm).c_str()); }
 		else st.cls("extract_all_skipped_unsafe_names");
 	}
-	if (okAfterErr) { uint64_t h = fnv1a(bytes.data(), bytes.size(), kind); for (auto& c : calls) h = hmix(h, c.op % 8 * 1000 + c.idx % 1000); st.nt(h); st.cls("success_after_failure"); }
+	if (okAfterErr) { uint64_t h = fnv1a(bytes.data(), bytes.size(), kind); for (auto& c : calls) h = hmix(h, c.op % 10 * 1000 + c.idx % 1000); st.nt(h); st.cls("success_after_failure"); }
 	(void)anyOk;
 }
 
 std::vector<Call> default_calls(size_t countGuess) {
 	std::vector<Call> cs;
 	cs.push_back({0, 0, ""});
-	for (uint64_t i = 0; i <= countGuess + 1; ++i) for (uint8_t op : {uint8_t(1), uint8_t(2), uint8_t(3), uint8_t(6), uint8_t(7), uint8_t(4), uint8_t(5)}) cs.push_back({op, i, ""});
+	for (uint64_t i = 0; i <= countGuess + 1; ++i) for (uint8_t op : {uint8_t(1), uint8_t(2), uint8_t(3), uint8_t(6), uint8_t(7), uint8_t(4), uint8_t(5), uint8_t(8), uint8_t(9), uint8_t(6)}) cs.push_back({op, i, ""});
 	// the same member twice in a row through each pair of access paths (extract/extract, extract/stream, stream/stream)
 	for (uint64_t i = 0; i <= countGuess; ++i) for (uint8_t op : {uint8_t(7), uint8_t(7), uint8_t(6), uint8_t(6), uint8_t(7)}) cs.push_back({op, i, ""});
 	// again from the start: earlier failures must not matter
